@@ -7,6 +7,10 @@ mod c07;
 mod c09;
 mod c10;
 mod c11;
+mod c12;
+mod c13;
+mod c14;
+mod pools;
 mod units;
 
 use explorer::{Ctx, ReplayTarget, Tier};
@@ -19,6 +23,9 @@ fn dispatch(id: &str, ctx: &mut Ctx) -> bool {
         "C09" => c09::run(ctx),
         "C10" => c10::run(ctx),
         "C11" => c11::run(ctx),
+        "C12" => c12::run(ctx),
+        "C13" => c13::run(ctx),
+        "C14" => c14::run(ctx),
         _ => return false,
     }
     true
